@@ -273,6 +273,109 @@ theorem expanded_items_permitted (ctx : Ctx) (op : Operation) (node : Node) (pat
     | none => rfl
     | some s => rw [hpm] at chk; cases chk
 
+/-! ## concrete paths: equality with the specification -/
+
+/-- the answer list of a concrete path `p` for an outcome of `next_for_path` -/
+def outs (p : Path) : PathOutcome → List Out
+  | .item e c l a => [.item e c l false a]
+  | .done => []
+  | .err s => [.status p s]
+
+theorem expand_single_concrete (ctx : Ctx) (op : Operation) (node : Node) (p : Path) (fuel : Nat)
+    (hw : isWildcard p = false) :
+    expand ctx op node [p] (fuel + 2) = outs p (nextForPath ctx op node p {} none).outcome := by
+  unfold expand
+  unfold run
+  simp only [next]
+  unfold nextFrom
+  cases hn : nextForPath ctx op node p {} none with
+  | yield ep cl lf arr cur' =>
+    simp only [hw, Bool.not_false, if_true, PathRes.outcome, outs]
+    unfold run
+    simp [next]
+  | done => simp [PathRes.outcome, outs]
+  | err s =>
+    simp only [PathRes.outcome, outs]
+    unfold run
+    simp [next]
+
+theorem isEndpointAccessible_eq_reachesB (fabrics : List Fabric) (a : Accessor) (ep : Nat) (hwf : WF fabrics) :
+    isEndpointAccessible fabrics a ep = reachesB fabrics a ep := by
+  have h1 := C05.group_reaches_only_member_endpoints fabrics a ep hwf
+  have h2 := C05.reachesB_iff fabrics a ep
+  cases h : isEndpointAccessible fabrics a ep <;> cases h' : reachesB fabrics a ep <;> simp_all
+
+theorem find_unique_filter {ls : List Leaf} {l : Leaf} (hl : l ∈ ls.filter (·.enabled))
+    (hnd : (ls.map (·.id)).Nodup) :
+    (ls.filter (·.enabled)).find? (fun a => a.id == l.id) = some l := by
+  apply find_unique hl
+  exact List.Nodup.sublist (List.Sublist.map _ List.filter_sublist) hnd
+
+/-- **A request consisting of one concrete path is answered exactly as the specification says**:
+the element, nothing (rejected by the caller's filter), or the single status of the first failing
+level — in particular a denied concrete path yields exactly its status and no item. -/
+theorem concrete_path_expected (ctx : Ctx) (op : Operation) (node : Node) (p : Path) (fuel : Nat)
+    {ep cl lf : Nat} (hep : p.endpoint = some ep) (hcl : p.cluster = some cl) (hl : p.leaf = some lf)
+    (hn : nodeWF node = true) (hwf : WF ctx.fabrics) (hc : CanonicalPrivs ctx.fabrics) :
+    expand ctx op node [p] (fuel + 2) = expectedItem ctx op node p := by
+  have hw : isWildcard p = false := by simp [isWildcard, hep, hcl, hl]
+  rw [expand_single_concrete ctx op node p fuel hw, nextForPath_concrete ctx op node p none hep hcl hl]
+  unfold expectedItem
+  simp only [hcl, hl, hep, Option.isNone_some, Bool.and_false, Bool.false_eq_true, if_false]
+  unfold concreteOutcome expectedConcrete
+  have hpred : (fun (e : Endpoint) => ep == e.id && isEndpointAccessible ctx.fabrics ctx.accessor e.id)
+      = (fun e => e.id == ep && reachable ctx e) := by
+    funext e
+    unfold reachable
+    rw [isEndpointAccessible_eq_reachesB _ _ _ hwf, Bool.beq_comm]
+  rw [hpred]
+  cases hfe : node.find? (fun e => e.id == ep && reachable ctx e) with
+  | none => simp [outs]
+  | some e =>
+    have he : e ∈ node := List.mem_of_find?_eq_some hfe
+    simp only
+    cases hfc : e.clusters.find? (fun c => c.id == cl) with
+    | none => simp [outs]
+    | some c =>
+      have hcm : c ∈ e.clusters := List.mem_of_find?_eq_some hfc
+      obtain ⟨na, nc⟩ := nodeWF_tables hn he hcm
+      simp only
+      unfold leafOutcome
+      have hsl : c.leaves (op == .invoke) = specLeaves c op := rfl
+      rw [hsl]
+      cases hfl : (specLeaves c op).find? (fun l => l.id == lf) with
+      | none => cases op <;> simp [outs]
+      | some l =>
+        have hlm : l ∈ specLeaves c op := List.mem_of_find?_eq_some hfl
+        have hlid : l.id = lf := by have := List.find?_some hfl; simpa using this
+        have hmem : l ∈ (if op = .invoke then c.cmds else c.attrs) := by
+          unfold specLeaves at hlm
+          cases op <;> simp_all
+        have hnd : ((if op = .invoke then c.cmds else c.attrs).map (·.id)).Nodup := by
+          cases op <;> simp_all
+        have hchk := checkAccess_eq_permitted ctx op e c l hwf hc hmem hnd
+        simp only
+        unfold leafCheck
+        by_cases hfil : ctx.filter e.id c.id l.id = true
+        · have harr : arrayFlag op c l = (op != .invoke && l.array) := by
+            unfold arrayFlag
+            cases op with
+            | invoke => simp
+            | read =>
+              have : l ∈ c.attrs.filter (·.enabled) := by unfold specLeaves at hlm; simpa using hlm
+              simp [Cluster.leaves, find_unique_filter this na]
+              rfl
+            | write =>
+              have : l ∈ c.attrs.filter (·.enabled) := by unfold specLeaves at hlm; simpa using hlm
+              simp [Cluster.leaves, find_unique_filter this na]
+              rfl
+          simp only [hfil, if_true, Bool.not_true, Bool.false_eq_true, if_false, reduceCtorEq, beq_iff_eq]
+          rw [hchk]
+          cases hp : permitted ctx op e c l with
+          | none => simp [outs, harr, Except.map]
+          | some s => simp [outs, Except.map]
+        · simp [hfil, outs]
+
 /-- The full statement of C06 for the expansion: the answers are exactly the specification's list.
 Evaluated by the oracle on every generated request (no counterexample); the soundness half is the
 theorems above, the completeness half (every permitted element is answered, a denied concrete path
@@ -338,5 +441,15 @@ example : expand paseCtx .invoke demoNode [conc 0 31 0] 10 = [.status (conc 0 31
 example : timedGate true (some 100) 100 = .proceed ∧ timedGate true (some 100) 101 = .timeout ∧
     timedGate true none 5 = .timedRequestMismatch ∧ timedGate false (some 100) 5 = .timedRequestMismatch ∧
     timedGate false none 5 = .proceed := by decide
+
+/-- `concrete_path_expected` instantiated: a denied concrete path yields exactly its status -/
+example : expand (demoCtx false) .read demoNode [conc 0 31 0] 2 = expectedItem (demoCtx false) .read demoNode (conc 0 31 0) :=
+  concrete_path_expected (demoCtx false) .read demoNode (conc 0 31 0) 0 rfl rfl rfl (by decide)
+    ⟨by decide, by decide, by decide⟩
+    (by intro f hf e he
+        simp only [demoCtx, demoAcl, List.mem_cons, List.not_mem_nil, or_false] at hf
+        subst hf
+        simp only [List.mem_cons, List.not_mem_nil, or_false] at he
+        subst he; exact ⟨.manage, rfl⟩)
 
 end C06
